@@ -766,7 +766,7 @@ O(id='oer_fetch_quantity', props=['C03', 'C04', 'C15', 'C19'], kind='width', ent
 O(id='_edge_compare.contract', props=['C09'], kind='width', entry='h_edge_compare_contract', enforce=['_edge_compare'], functions=['_edge_compare'], include=['contracts/crange_contracts.h'],
   backends=['sat', 'cvc5'], unwind=2, bound='loop-free; every pair of edges, 128-bit values', min_props=5, timeout=300, **CR)
 
-O(id='xer_decode_general.t8', props=['C03', 'C04', 'C05'], kind='bounded', tier='experimental', entry='h_xer_decode_general', harness='harness/h_xer.c',
+O(id='xer_decode_general.t8', props=['C03', 'C04', 'C05'], kind='bounded', tier='thorough', entry='h_xer_decode_general', harness='harness/h_xer.c',
   units=[SK + 'xer_decoder.c', SK + 'xer_support.c'], link=[SK + 'xer_decoder.c', SK + 'xer_support.c'], functions=['xer_decode_general', 'xer_next_token', 'xer_check_tag', 'pxml_parse'],
   fp_restrict=[(r'body_receiver$', ['body_cb']), (r'::cb$', ['xer__token_cb'])], defines=['VF_N=8'], unwind=12, cbmc=['--unwindset', 'body_cb.0:34,acc_eq.0:34', '--no-malloc-may-fail'],
   bound='every text of at most 8 characters, every split point (two chunks); element name T, body receiver is a harness stub', trusted=['body receiver is a harness stub that appends what it is given'], min_props=60, timeout=1500)
